@@ -195,6 +195,9 @@ def codec_scope(tier):
     add("arr_rec_empty", arr(rec(nm("Empty"), [])))
     add("map_rec_opt", mp(rec(nm("MR"), [("o", un(prim("null"), prim("string"))), ("l", arr(prim("boolean")))])))
     add("rec_two_names", un(rec("n1.Same", [("a", prim("int"))]), rec("n2.Same", [("a", prim("string"))])))
+    # a union whose branches are all references to types defined earlier: it is the LAST node of the vector
+    add("rec_union_of_refs_last", rec(nm("UL"), [("a", fixed("ul.F", 2)), ("e", enum("ul.E", ["P", "Q"])), ("r", rec("ul.In", [("x", prim("int"))])),
+                                                 ("u", un(ref("ul.F"), ref("ul.E"), ref("ul.In")))]))
     # the natural branch of a value declared after / between branches that could also hold a value of its serde type
     add("u_enum_enum_int_str", un(enum(nm("u3.E"), ["A", "B"]), enum(nm("u3.E2"), ["B", "C"]), prim("int"), prim("string")))
     add("u_null_bytes_fixed_arr", un(prim("null"), prim("bytes"), fixed(nm("u3.F"), 2), arr(prim("int"))))
